@@ -302,7 +302,9 @@ def inherent(ex, ci, sb, meth, args, fn, dest_ty):
     if isinstance(d, (VecV, SliceRef)) or (isinstance(d, Agg) and d.name == '[]'):
         items, s, e = ex.as_items(d)
         n = e - s
-        if meth == 'len': return usize(n)
+        if meth == 'len':
+            if isinstance(d, VecV) and d.base is not None: return ex.binop('Add', d.base, usize(n))
+            return usize(n)
         if meth == 'is_empty': return n == 0
         if meth == 'iter' or meth == 'iter_mut': return it_cells(items[s:e], True)
         if meth == 'first': return opt(Ref(items[s])) if n else opt(None)
@@ -380,7 +382,9 @@ def inherent(ex, ci, sb, meth, args, fn, dest_ty):
             items, s, e = ex.as_items(args[1]); v.items.extend(Cell(x.v) for x in items[s:e]); return unit()
         if meth == 'put_u16':
             x = args[1]; v.items.extend([Cell(ex.cast(ex.binop('Shr', x, Int(8, 'u16')), 'u8')), Cell(ex.cast(x, 'u8'))]); return unit()
-        if meth == 'len': return usize(len(v.items))
+        if meth == 'len':
+            if v.base is not None: return ex.binop('Add', v.base, usize(len(v.items)))
+            return usize(len(v.items))
         if meth == 'is_empty': return len(v.items) == 0
         if meth == 'to_vec': return VecV([Cell(x.v) for x in v.items])
         if meth == 'slice':
